@@ -17,9 +17,20 @@ class NoLoopWorld(World):
         # the engine's loop exists but is NOT running here: get_running_loop() fails exactly as in plain sync code
         with warnings.catch_warnings():
             warnings.simplefilter('ignore')
-            for variant in ('fresh_bus', 'bus_used_before'):
+            for variant in ('fresh_bus', 'bus_used_before', 'event_used_before'):
                 bus = HBus(name='N' + variant[0].upper(), max_history_size=self.scn['buses']['A'].get('hist', 50))
                 self.keep.append(bus)
+                e = _X(name='x')
+                if variant == 'event_used_before':
+                    # the EVENT has been through another bus while a loop was running (it was awaited, it is complete); now plain code hands it to a fresh bus
+                    other = HBus(name='NO', max_history_size=50)
+                    self.keep.append(other)
+
+                    async def used():
+                        await other.dispatch(e)
+                        await other.stop()
+                    self.loop.run_until_complete(used())
+                    events._set_running_loop(None)
                 if variant == 'bus_used_before':
                     async def warm():
                         e0 = bus.dispatch(_X(name='warm'))
@@ -27,14 +38,13 @@ class NoLoopWorld(World):
                         await bus.stop()
                     self.loop.run_until_complete(warm())
                     events._set_running_loop(None)
-                e = _X(name='x')
                 try:
                     r = bus.dispatch(e)
-                    outcome[variant] = ('returned', r is e, e.event_id in bus.event_history, list(e.event_path), bus.event_queue.qsize() if bus.event_queue else None)
+                    outcome[variant] = ('returned', r is e, e.event_id in bus.event_history, [p for p in e.event_path if p == bus.name], bus.event_queue.qsize() if bus.event_queue else None)
                 except RuntimeError as ex:
-                    outcome[variant] = ('raised', 'RuntimeError', e.event_id in bus.event_history, list(e.event_path), None)
+                    outcome[variant] = ('raised', 'RuntimeError', e.event_id in bus.event_history, [p for p in e.event_path if p == bus.name], None)
                 except BaseException as ex:  # noqa: BLE001
-                    outcome[variant] = ('raised', type(ex).__name__, e.event_id in bus.event_history, list(e.event_path), None)
+                    outcome[variant] = ('raised', type(ex).__name__, e.event_id in bus.event_history, [p for p in e.event_path if p == bus.name], None)
         self.extra['noloop'] = outcome
         self.rec('noloop', tuple(sorted((k, v[0], v[1]) for k, v in outcome.items())))
         return ('done', None)
